@@ -84,7 +84,8 @@ def explorations(tier):
         ex.append(("engine G4-join x faults, W=2 sync b<=1", ENGINE, engine_fail_cfgs([4], [2], ["default"], max_errors=(0, None), only_join=True), {"preempt": 1}))
         ex.append(("api n=3 x faults, W=1 every pop order; W=2 b<=2", PLAN,
                    api_fail_cfgs(3, [(1, "random"), (2, "default")], max_errors=(0, 1, None)), {"preempt": 2}))
-        ex.append(("api literal hubs m x k with failing predecessors, W=1..3, b<=2", PLAN, hub_fail_cfgs([1, 2, 3]), {"preempt": 2, "random": 2}))
+        ex.append(("api literal hubs m x k with failing predecessors, W=1..3, b<=1, <=2 non-default draws", PLAN, hub_fail_cfgs([1, 2, 3]), {"preempt": 1, "random": 2, "yield": 1}))
+        ex.append(("api literal hubs m x k with failing predecessors, W=2, b<=2", PLAN, hub_fail_cfgs([2]), {"preempt": 2, "random": 1, "yield": 0}))
     return ex
 
 
